@@ -174,13 +174,22 @@ Attach(s) ==
   /\ UNCHANGED <<etcd, up, backlog, fresh>>
   /\ out' = [op |-> "attach", s |-> s, excl |-> (s \in Excl)] @@ Predict(attached', view', owns')
 
+\* NewSubscriber while the registry cannot be reached.  Only possible while no connection to it
+\* exists, i.e. before the first successful NewSubscriber (the connection, once made, is shared
+\* and kept).  The call returns an error and no subscriber comes to exist; nothing the statement
+\* talks about changes, and the caller may try again (the same subscriber or another one).
+AttachFail(s) ==
+  /\ attached = {} /\ up
+  /\ UNCHANGED core
+  /\ out' = [op |-> "attachfail", s |-> s, excl |-> (s \in Excl)]
+
 Mids == UNION {[1..m -> {Ev(op, k) : op \in {"put", "del"}, k \in Keys}] : m \in 0..MidLen}
 
 Next ==
   \/ \E k \in Keys : Put(k) \/ Delete(k)
   \/ Disconnect \/ Resume
   \/ \E m \in Mids : Reload(m)
-  \/ \E s \in Subs : Attach(s)
+  \/ \E s \in Subs : Attach(s) \/ AttachFail(s)
 
 Spec == Init /\ [][Next]_vars
 
